@@ -36,6 +36,25 @@ structure WSound (s : St) : Prop where
 
 theorem WSound.zero {s : St} (h : WSound s) : Sound0 s := ⟨h.cfg, h.bad⟩
 
+/-- A bitfield, when there is one, has one bit per piece. -/
+def BfLen (s : St) : Prop := ∀ b, s.bf = some b → b.length = s.n
+
+/-- Piece `i` exists and its recorded hash is not the hash of its true content (a padding-only piece
+with a wrong recorded hash): it can never be verified. -/
+def Unver (c : Cfg) (i : Nat) : Prop := i < c.n ∧ c.padOK i = false
+
+/-- No piece that can never be verified has its bit set. -/
+def NoBit (s : St) : Prop := ∀ i, Unver s.cfg i → bitOf s.bf i = false
+
+theorem BfLen.of_eq {s s' : St} (h : BfLen s) (hc : s'.cfg = s.cfg) (hbf : s'.bf = s.bf ∨ s'.bf = none) : BfLen s' := by
+  intro b hb
+  rcases hbf with h' | h'
+  · rw [h'] at hb
+    have := h b hb
+    unfold St.n at *
+    rw [hc]; exact this
+  · rw [h'] at hb; cases hb
+
 /-- No file that holds a bad section of piece `i` in `s'` has come into existence between `s` and `s'`. -/
 def FEle (s s' : St) (i : Nat) : Prop :=
   ∀ x ∈ s'.bad, x.1 = i → s'.fileExists.getD x.2 false = true → s.fileExists.getD x.2 false = true
@@ -48,6 +67,10 @@ structure Adv (s s' : St) : Prop where
   bad : ∀ x ∈ s'.bad, x ∈ s.bad
   bf : ∀ i, bitOf s'.bf i = true → (bitOf s.bf i = true ∧ FEle s s' i) ∨ s'.diskOKi i = true
   per : ∀ i, bitOf s'.persisted i = true → bitOf s.persisted i = true ∨ bitOf s.bf i = true ∨ s'.diskOKi i = true
+  /-- a bitfield has one bit per piece -/
+  len : BfLen s → BfLen s'
+  /-- with a piece that can never be verified (and has no bit) the torrent does not become complete -/
+  nc : BfLen s → NoBit s → (∃ i, Unver s.cfg i) → s.completed = false → s'.completed = false
 
 theorem diskOKi_mono {s s' : St} (hc : s'.cfg = s.cfg) (h : ∀ x ∈ s'.bad, x ∈ s.bad) (i : Nat) (hi : s.diskOKi i = true) :
     s'.diskOKi i = true := by
@@ -60,7 +83,20 @@ theorem FEle.of_eq {s s' : St} (h : s'.fileExists = s.fileExists) (i : Nat) : FE
   fun _ _ _ hx => h ▸ hx
 
 theorem Adv.refl (s : St) : Adv s s :=
-  ⟨rfl, fun _ h => h, fun i h => Or.inl ⟨h, FEle.refl s i⟩, fun _ h => Or.inl h⟩
+  ⟨rfl, fun _ h => h, fun i h => Or.inl ⟨h, FEle.refl s i⟩, fun _ h => Or.inl h, fun h => h, fun _ _ _ h => h⟩
+
+/-- Whatever an admissible step does, a piece that can never be verified gets no bit: a new bit is
+justified by the disk, and `diskOKi` includes the recorded hash being right. -/
+theorem Adv.noBit {s s' : St} (a : Adv s s') (h : NoBit s) : NoBit s' := by
+  intro i hi
+  have hi' : Unver s.cfg i := a.cfg ▸ hi
+  cases hb : bitOf s'.bf i with
+  | false => rfl
+  | true =>
+    rcases a.bf i hb with ⟨h', _⟩ | h'
+    · rw [h i hi'] at h'; cases h'
+    · have := ((diskOKi_eq_true s' i).1 h').2
+      rw [hi.2] at this; cases this
 
 theorem Adv.trans {a b c : St} (h1 : Adv a b) (h2 : Adv b c) : Adv a c where
   cfg := h2.cfg.trans h1.cfg
@@ -81,6 +117,9 @@ theorem Adv.trans {a b c : St} (h1 : Adv a b) (h2 : Adv b c) : Adv a c where
       · exact Or.inr (Or.inl h)
       · exact Or.inr (Or.inr (diskOKi_mono h2.cfg h2.bad i h))
     · exact Or.inr (Or.inr h)
+  len := fun h => h2.len (h1.len h)
+  nc := fun hl hn hu hc =>
+    h2.nc (h1.len hl) (h1.noBit hn) (by obtain ⟨i, hi⟩ := hu; exact ⟨i, h1.cfg ▸ hi⟩) (h1.nc hl hn hu hc)
 
 theorem Sound0.adv {s s' : St} (h : Sound0 s) (a : Adv s s') : Sound0 s' where
   cfg := a.cfg ▸ h.cfg
@@ -124,7 +163,13 @@ theorem WSound.adv {s s' : St} (h : WSound s) (a : Adv s s') : WSound s' where
 kept, dropped or overwritten with the bitfield. -/
 theorem Adv.of_eq {s s' : St} (hc : s'.cfg = s.cfg) (hb : s'.bad = s.bad) (hf : s'.fileExists = s.fileExists)
     (hbf : s'.bf = s.bf ∨ s'.bf = none)
-    (hp : s'.persisted = s.persisted ∨ s'.persisted = s.bf ∨ s'.persisted = none) : Adv s s' where
+    (hp : s'.persisted = s.persisted ∨ s'.persisted = s.bf ∨ s'.persisted = none)
+    (hcm : s'.completed = true → s.completed = true := by first | exact id | (simp; done)) : Adv s s' where
+  len := fun h => h.of_eq hc hbf
+  nc := fun _ _ _ h => by
+    cases hc' : s'.completed with
+    | false => rfl
+    | true => rw [hcm hc'] at h; cases h
   cfg := hc
   bad := fun x hx => hb ▸ hx
   bf := fun i hi => by
@@ -138,8 +183,9 @@ theorem Adv.of_eq {s s' : St} (hc : s'.cfg = s.cfg) (hb : s'.bad = s.bad) (hf : 
     · rw [h] at hi; cases hi
 
 theorem Adv.frame {s s' : St} (hc : s'.cfg = s.cfg) (hb : s'.bad = s.bad) (hf : s'.fileExists = s.fileExists)
-    (hbf : s'.bf = s.bf) (hp : s'.persisted = s.persisted) : Adv s s' :=
-  Adv.of_eq hc hb hf (Or.inl hbf) (Or.inl hp)
+    (hbf : s'.bf = s.bf) (hp : s'.persisted = s.persisted)
+    (hcm : s'.completed = true → s.completed = true := by first | exact id | (simp; done)) : Adv s s' :=
+  Adv.of_eq hc hb hf (Or.inl hbf) (Or.inl hp) hcm
 
 /-! ### stop, writeBitfield -/
 
@@ -251,6 +297,8 @@ theorem stop_fe (s : St) (e : Bool) :
       simpa using this
 
 theorem stop_adv (s : St) (e : Bool) : Adv s (s.stop e) where
+  len := fun h => h.of_eq (by simp) (stop_bf s e)
+  nc := fun _ _ _ h => by simpa using h
   cfg := by simp
   bad := fun x hx => by simpa using hx
   bf := fun i hi => by
@@ -265,8 +313,9 @@ theorem stop_adv (s : St) (e : Bool) : Adv s (s.stop e) where
 
 /-- `stop` applied to a state that agrees with `a` on the relevant fields. -/
 theorem stop_adv' (a s : St) (e : Bool) (hc : s.cfg = a.cfg) (hb : s.bad = a.bad) (hf : s.fileExists = a.fileExists)
-    (hbf : s.bf = a.bf) (hp : s.persisted = a.persisted) : Adv a (s.stop e) :=
-  (Adv.frame hc hb hf hbf hp).trans (stop_adv s e)
+    (hbf : s.bf = a.bf) (hp : s.persisted = a.persisted)
+    (hcm : s.completed = true → a.completed = true := by first | exact id | (simp; done)) : Adv a (s.stop e) :=
+  (Adv.frame hc hb hf hbf hp hcm).trans (stop_adv s e)
 
 /-- Closes `Adv a b` when `b` agrees with `a` on cfg, bad, fileExists, bf, persisted (frame simp lemmas). -/
 macro "adv_frame" : tactic => `(tactic| (apply Adv.frame <;> first | rfl | (simp; done)))
@@ -286,7 +335,45 @@ theorem handlePeerSnubbed_adv (m : M) (k : Nat) : Adv m.1 (handlePeerSnubbed m k
 theorem handleMetadataReject_adv (m : M) (k : Nat) : Adv m.1 (handleMetadataReject m k).1 := by adv_frame
 theorem acceptPeer_adv (m : M) (k : Nat) (ip : String) (fast ext bad dup : Bool) :
     Adv m.1 (acceptPeer m k ip fast ext bad dup).1.1 := by adv_frame
-theorem checkCompletion_adv (s : St) : Adv s s.checkCompletion.1 := by adv_frame
+theorem allTrue_false_of_bit {b : List Bool} {i : Nat} (hi : i < b.length) (hb : b.getD i false = false) :
+    allTrue b = false := by
+  cases h : allTrue b with
+  | false => rfl
+  | true =>
+    unfold allTrue at h
+    rw [List.all_eq_true] at h
+    have hm : b[i] ∈ b := List.getElem_mem hi
+    have := h _ hm
+    simp only [id] at this
+    rw [List.getD_eq_getElem?_getD, List.getElem?_eq_getElem hi] at hb
+    simp only [Option.getD_some] at hb
+    rw [hb] at this; cases this
+
+/-- `checkCompletion` leaves bitfield and disk alone; it declares the torrent complete only when every
+bit is set — never while a piece that cannot be verified has no bit. -/
+theorem checkCompletion_adv (s : St) : Adv s s.checkCompletion.1 := by
+  have hc : s.checkCompletion.1.cfg = s.cfg := by simp
+  have hb : s.checkCompletion.1.bad = s.bad := by simp
+  have hf : s.checkCompletion.1.fileExists = s.fileExists := by simp
+  have hbf : s.checkCompletion.1.bf = s.bf := by simp
+  have hp : s.checkCompletion.1.persisted = s.persisted := by simp
+  refine ⟨hc, fun x hx => hb ▸ hx, fun i hi => Or.inl ⟨hbf ▸ hi, FEle.of_eq hf i⟩, fun i hi => Or.inl (hp ▸ hi),
+    fun h => h.of_eq hc (Or.inl hbf), ?_⟩
+  intro hl hn hu hcf
+  obtain ⟨i, hi⟩ := hu
+  unfold St.checkCompletion
+  rw [if_neg (by simp [hcf])]
+  split
+  · unfold St.crash
+    dsimp only
+    split <;> exact hcf
+  · next b hb' =>
+    have hbit := hn i hi
+    rw [hb'] at hbit
+    simp only [bitOf_some] at hbit
+    have hlt : i < b.length := by rw [hl b hb']; exact hi.1
+    rw [allTrue_false_of_bit hlt hbit]
+    exact hcf
 theorem hadReady_adv (m : M) : Adv m.1 (hadReady m).1 := by adv_frame
 theorem reconcile_adv (s : St) (impl : List ImplDl) : Adv s (reconcile s impl).1 := by adv_frame
 theorem reconcileIdl_adv (s : St) (impl : List Nat) : Adv s (reconcileIdl s impl).1 := by adv_frame
@@ -351,8 +438,25 @@ theorem handleVerifyCommand_adv (m : M) : Adv m.1 (handleVerifyCommand m).1 := b
 
 /-! ### Allocation -/
 
+theorem length_foldl_setAt (idx : List Nat) (l : List Bool) :
+    (idx.foldl (fun d i => setAt d i true) l).length = l.length := by
+  induction idx generalizing l with
+  | nil => rfl
+  | cons a idx ih => rw [List.foldl_cons, ih]; simp [setAt]
+
 theorem markPaddingPieces_adv (s : St) (h : Sound0 s) : Adv s s.markPaddingPieces := by
-  refine ⟨by simp, fun x hx => by simpa using hx, ?_, fun i hi => Or.inl (by simpa using hi)⟩
+  refine ⟨by simp, fun x hx => by simpa using hx, ?_, fun i hi => Or.inl (by simpa using hi), ?_,
+    fun _ _ _ hc => by simpa using hc⟩
+  rotate_left
+  · intro hl b hb
+    unfold St.markPaddingPieces at hb ⊢
+    split at hb
+    · next hbf => exact hl b (by simpa [hbf] using hb)
+    · next b0 hbf =>
+      simp only [Option.some.injEq] at hb
+      subst hb
+      rw [length_foldl_setAt]
+      exact hl b0 hbf
   intro i hi
   unfold St.markPaddingPieces at hi
   split at hi
@@ -371,14 +475,20 @@ theorem hadCheck_adv (m : M) : Adv m.1 (hadCheck m).1 := by
   dsimp only
   split
   · simp only [onSt_fst]
-    exact stop_adv' _ _ _ (by simp) (by simp) (by simp) (by simp) (by simp)
+    exact (checkCompletion_adv m.1).trans (stop_adv _ _)
   · exact (checkCompletion_adv m.1).trans (hadReady_adv (m.1.checkCompletion.1, m.2))
 
 /-- Installing an all-false bitfield: every (non-existent) bit is trivially justified. -/
 theorem freshBf_adv (s : St) : Adv s { s with bf := some (List.replicate s.n false) } :=
-  ⟨rfl, fun _ hx => hx, fun i hi => by simp [bitOf] at hi, fun _ hi => Or.inl hi⟩
+  ⟨rfl, fun _ hx => hx, fun i hi => by simp [bitOf] at hi, fun _ hi => Or.inl hi,
+    fun _ b hb => by simp only [Option.some.injEq] at hb; subst hb; simp [St.n], fun _ _ _ h => h⟩
 
-theorem resetCompletion_adv (s : St) : Adv s s.resetCompletion := by adv_frame
+theorem resetCompletion_adv (s : St) : Adv s s.resetCompletion := by
+  apply Adv.frame (hcm := ?_) <;> first | rfl | (simp; done) | skip
+  unfold St.resetCompletion
+  split
+  · intro h; cases h
+  · exact id
 
 theorem hadFreshInstall_adv (m : M) (h : Sound0 m.1) : Adv m.1 (hadFreshInstall m).1 := by
   unfold hadFreshInstall
@@ -459,6 +569,7 @@ theorem allocatorRun_adv (m : M) (h : Sound0 m.1) : Adv m.1 (allocatorRun m).1 :
     have e2 : m1.1.bad = m.1.bad := by subst hm1; simp
     have e3 : m1.1.bf = m.1.bf := by subst hm1; simp
     have e4 : m1.1.persisted = m.1.persisted := by subst hm1; simp
+    have e6 : m1.1.completed = m.1.completed := by subst hm1; simp
     have e5 : ∀ f, m1.1.fileExists.getD f false = (decide (f < m.1.cfg.flens.length) &&
         (m.1.fileExists.getD f false ||
           ((List.range m.1.cfg.flens.length).filter (fun i => !(m.1.cfg.fpads.getD i false))).contains f)) := by
@@ -468,7 +579,8 @@ theorem allocatorRun_adv (m : M) (h : Sound0 m.1) : Adv m.1 (allocatorRun m).1 :
         (fun i => !(m.1.fileExists.getD i false))
     · -- nothing was missing: no file came into existence
       have a1 : Adv m.1 m1.1 := by
-        refine ⟨e1, fun x hx => e2 ▸ hx, fun i hi => Or.inl ⟨e3 ▸ hi, fun x _ _ hF => ?_⟩, fun i hi => Or.inl (e4 ▸ hi)⟩
+        refine ⟨e1, fun x hx => e2 ▸ hx, fun i hi => Or.inl ⟨e3 ▸ hi, fun x _ _ hF => ?_⟩, fun i hi => Or.inl (e4 ▸ hi),
+          fun hl => hl.of_eq e1 (Or.inl e3), fun _ _ _ hc => e6 ▸ hc⟩
         rw [e5] at hF
         simp only [Bool.and_eq_true, decide_eq_true_eq, Bool.or_eq_true] at hF
         rcases hF.2 with hF | hF
@@ -480,8 +592,10 @@ theorem allocatorRun_adv (m : M) (h : Sound0 m.1) : Adv m.1 (allocatorRun m).1 :
     · -- files were missing: every bit afterwards is justified by the disk
       have a := handleAllocationDone_adv m1 ((((List.range m.1.cfg.flens.length).filter
         (fun i => !(m.1.cfg.fpads.getD i false))).any fun i => m.1.fileExists.getD i false)) true h1
+      have hnb : NoBit m.1 → NoBit m1.1 := fun hn i hi => by rw [e3]; exact hn i (e1 ▸ hi)
       refine ⟨a.cfg.trans e1, fun x hx => e2 ▸ a.bad x hx, fun i hi => Or.inr (handleAllocationDone_missing m1 _ h1 i hi),
-        fun i hi => ?_⟩
+        fun i hi => ?_, fun hl => a.len (hl.of_eq e1 (Or.inl e3)),
+        fun hl hn hu hc => a.nc (hl.of_eq e1 (Or.inl e3)) (hnb hn) (by obtain ⟨i, hi⟩ := hu; exact ⟨i, e1 ▸ hi⟩) (e6 ▸ hc)⟩
       rcases a.per i hi with hp | hp | hp
       · exact Or.inl (e4 ▸ hp)
       · exact Or.inr (Or.inl (e3 ▸ hp))
@@ -498,9 +612,29 @@ theorem hvdInstall_adv (m : M) : Adv m.1 (hvdInstall m).1 := by
     intro i hi
     have := ((diskOK_getD m.1 i).1 hi).2
     simpa using this
-  refine ⟨by simp, fun x hx => by simpa using hx, fun i hi => Or.inr ?_, fun i hi => Or.inr (Or.inr ?_)⟩
+  have hcm : (hvdInstall m).1.completed = true → m.1.completed = true := by
+    unfold hvdInstall; dsimp only; simp only [onSt_fst]
+    split
+    · intro hc
+      revert hc
+      unfold St.resetCompletion
+      split
+      · intro h; cases h
+      · simp
+    · simp
+  refine ⟨by simp, fun x hx => by simpa using hx, fun i hi => Or.inr ?_, fun i hi => Or.inr (Or.inr ?_), ?_, ?_⟩
   · rw [hbf] at hi; exact hok i hi
   · rw [hper] at hi; exact hok i hi
+  · intro _ b hb
+    rw [hbf] at hb
+    simp only [Option.some.injEq] at hb
+    subst hb
+    have hn : (hvdInstall m).1.n = m.1.n := by unfold St.n; simp
+    rw [hn]; simp [St.diskOK]
+  · intro _ _ _ hc
+    cases h : (hvdInstall m).1.completed with
+    | false => rfl
+    | true => rw [hcm h] at hc; cases hc
 
 theorem hvdHaves_adv (m : M) : Adv m.1 (hvdHaves m).1 := by adv_frame
 
@@ -519,7 +653,16 @@ theorem pwdSet_adv (m : M) (w : WriteJob) (b : List Bool) (hb : m.1.bf = some b)
     (hok : m.1.diskOKi w.piece = true) : Adv m.1 (pwdSet m w b).1 := by
   have hbf : (pwdSet m w b).1.bf = some (setAt b w.piece true) := by
     unfold pwdSet; dsimp only; split <;> simp
-  refine ⟨by simp, fun x hx => by simpa using hx, fun i hi => ?_, fun i hi => Or.inl (by simpa using hi)⟩
+  refine ⟨by simp, fun x hx => by simpa using hx, fun i hi => ?_, fun i hi => Or.inl (by simpa using hi), ?_,
+    fun _ _ _ hc => by simpa using hc⟩
+  rotate_left
+  · intro hl b' hb'
+    rw [hbf] at hb'
+    simp only [Option.some.injEq] at hb'
+    subst hb'
+    have hn : (pwdSet m w b).1.n = m.1.n := by unfold St.n; simp
+    rw [hn]; simp only [setAt, List.length_set]
+    exact hl b hb
   rw [hbf, bitOf_some, getD_setAt] at hi
   split at hi
   · next h => right; rw [h.1]; simpa using hok
@@ -591,7 +734,8 @@ theorem writerRun_adv (m : M) (w : WriteJob) (h : Sound0 m.1) : Adv m.1 (writerR
                 (fun sc => s!"write:{fileName m.1.cfg sc.file}:{sc.off}:{sc.len}:ok"),
               bad := s.bad.filter (fun b => b.1 ≠ w.piece) }).1 := by
             refine ⟨by simp, fun x hx => ?_, fun i hi => Or.inl ⟨by simpa using hi, FEle.of_eq (by simp) i⟩,
-              fun i hi => Or.inl (by simpa using hi)⟩
+              fun i hi => Or.inl (by simpa using hi), fun hl => hl.of_eq (by simp) (Or.inl (by simp)),
+              fun _ _ _ hc => by simpa using hc⟩
             simp only [onSt_fst, List.mem_filter] at hx
             exact hx.1
           refine a1.trans (handlePieceWriteDone_adv _ w false fun _ _ => ?_)
